@@ -117,6 +117,27 @@ def run(rep, tier, seed, model_ok=True, effort=1):
                         break
                 prev = (d, s)
         rep.count("coherent-patterns")
+    # ---- (2b) the same for the PEP 440 form written for {pep440_version}: a second rendering of the same calendar parts, over a whole year
+    for pat, two_digit in pats:
+        try:
+            pep_pat = impl.v2patterns.normalize_pattern(pat, "{pep440_version}")
+        except Exception:
+            continue
+        prev = None
+        for k in range(0, 400, 1 if tier == "thorough" else 3):
+            d = dt.date(2023, 12, 20) + dt.timedelta(days=k)
+            try:
+                s = render(impl, pep_pat, d)
+            except Exception:
+                s = None
+            if s is None:
+                break
+            rep.case(("pep440-form", pat, str(d)), nontrivial=prev is not None and s != prev[1])
+            if prev is not None and s != prev[1] and not (pv(prev[1]) <= pv(s)):
+                rep.violation("the PEP 440 form of the rendered version runs backwards: %s (%s) -> %s (%s)" % (prev[1], prev[0], s, d),
+                              input=dict(pattern=pat, pep440_pattern=pep_pat, day1=str(prev[0]), day2=str(d), v1=prev[1], v2=s), **{"class": "cal-backwards"})
+                break
+            prev = (d, s)
     rep.sample(dict(pattern=pats[3][0], d1="2018-12-30", v1=render(impl, pats[3][0], dt.date(2018, 12, 30)), v2=render(impl, pats[3][0], dt.date(2018, 12, 31))))
     # ---- (3) rejected pairings: refused, and really non-monotone
     wk_items = []
